@@ -177,7 +177,7 @@ class C05(Prop):
             'or enclosing block; error nodes/leaves only as a statement of file_input/suite or in place of a suite. Non-trivial: tree '
             'has >=1 error node/leaf and >=1 non-error node with >=2 children; distinct by (text, version); evidence also counts '
             'distinct (rule, child-type tuple) shapes.')
-    budgets = {'quick': 20000, 'thorough': 600000}
+    budgets = {'quick': 20000, 'thorough': 2400000}
 
     def strategy(self, tier):
         kinds = ('repo',) if tier == 'quick' else ('repo', 'stdlib3.12')
